@@ -19,6 +19,14 @@
    bounds are IPv4 blocks inside the address space (net4_ok) -- the generated code builds the IPAddress objects cidr[0],
    cidr[-1] through the range-checking constructor, the model applies net_first / net_last directly; the hypothesis of
    C17_to_globs (cidrs_tile) implies it.  cidr_to_glob: the network is inside its address space (prefixlen <= width).
+   The IPGlob class: the object is its state (_start, _end: IPAddress objects; _glob: Some text | None = the slot is unset);
+   src_IPGlob_get_glob / src_IPGlob_str = ipglob_str (AttributeError on an unset slot); src_IPGlob_set_glob = set_glob (on success the
+   new state, on failure the exception -- the model also says which state a failing setter leaves, the generated definition does
+   not); src_IPGlob_init = ipglob_new and src_IPGlob_setstate = ipglob_setstate (constructors: they start from unset slots; `self.glob = ..`
+   is the setter _set_glob read from `glob = property(_get_glob, _set_glob, ..)`); src_IPGlob_getstate = ipglob_getstate (IPv4 object).
+   super(IPGlob, self).__init__ / __getstate__ / __setstate__ (IPRange's methods) are NOT translated: hand-model symbols
+   py_iprange_init / py_iprange_getstate / py_iprange_setstate (Model/SrcPreludeGlob.v).  Hypothesis to_cidrs_wf: for IPv4 bounds the
+   translated iprange_to_cidrs returns IPv4 blocks inside the address space (as above, for all bounds).
    A source edit that changes one of these functions changes the generated term and this theorem stops compiling.
    Nothing but the statement closed by `exact`, followed by Print Assumptions. *)
 From Coq Require Import String.
@@ -45,7 +53,15 @@ Theorem C17_source_tie :
                    Forall net4_ok nets) ->
      src_cidr_to_glob {| nver := 4; nval := v; nplen := p |} = cidr_to_glob src_to_cidrs 4 v p) /\
   (forall to_cidrs v p, 0 <= net_first 128 v p <= net_last 128 v p -> net_last 128 v p <= max_int 6 ->
-     src_cidr_to_glob {| nver := 6; nval := v; nplen := p |} = cidr_to_glob to_cidrs 6 v p).
+     src_cidr_to_glob {| nver := 6; nval := v; nplen := p |} = cidr_to_glob to_cidrs 6 v p) /\
+  (forall s e g, src_IPGlob_get_glob s e g = ipglob_str (obj_of s e g)) /\
+  (forall s e g, src_IPGlob_str s e g = ipglob_str (obj_of s e g)) /\
+  (forall s e g ipglob, to_cidrs_wf ->
+     src_IPGlob_set_glob s e g ipglob =
+     match set_glob src_to_cidrs (obj_of s e g) ipglob with (o', None) => Ok (st_of o') | (_, Some ex) => Raise ex end) /\
+  (forall ipglob, to_cidrs_wf -> src_IPGlob_init ipglob = omap st_of (ipglob_new src_to_cidrs ipglob)) /\
+  (forall s e g, fst s = 4 -> src_IPGlob_getstate s e g = ipglob_getstate (obj_of s e g)) /\
+  (forall st, to_cidrs_wf -> src_IPGlob_setstate st = omap st_of (ipglob_setstate src_to_cidrs st)).
 Proof. exact C17_tie_ok. Qed.
 Print Assumptions C17_source_tie.
 
@@ -59,5 +75,10 @@ Example C17_src_nonvacuous :
   src_iprange_to_globs (4, 167772414) (4, 167772417) = Ok ["10.0.0.254-255"; "10.0.1.0-1"]%string /\
   src_iprange_to_globs (6, 1) (6, 2) = Raise AddrConversionError /\
   src_cidr_to_glob {| nver := 4; nval := 3221225985; nplen := 24 |} = Ok "192.0.2.*"%string /\
-  omap blocks_of (src_glob_to_cidrs "192.0.2.4-7") = Ok [(3221225988, 30)].
+  omap blocks_of (src_glob_to_cidrs "192.0.2.4-7") = Ok [(3221225988, 30)] /\
+  src_IPGlob_init "192.0.2.*" = Ok ((4, 3221225984), (4, 3221226239), Some "192.0.2.*"%string) /\
+  src_IPGlob_init "192.0.2.5-1" = Raise AddrFormatError /\
+  src_IPGlob_str (4, 0) (4, 255) None = Raise AttributeError /\
+  src_IPGlob_setstate (3221225984, 3221226239, 4) = Ok ((4, 3221225984), (4, 3221226239), Some "192.0.2.*"%string) /\
+  src_IPGlob_getstate (4, 3221225984) (4, 3221226239) (Some "192.0.2.*"%string) = (3221225984, 3221226239, 4).
 Proof. repeat split; vm_compute; reflexivity. Qed.
